@@ -14,7 +14,8 @@
 EXTENDS UfuncSem
 
 CONSTANTS Shapes,        \* operand shapes
-          OuterPairs     \* pairs of shapes for ufunc.outer
+          OuterPairs,    \* pairs of shapes for ufunc.outer
+          KindsSel       \* element kinds enumerated by this run (export runs are split per kind)
 
 VARIABLES cfg, ph
 vars == <<cfg, ph>>
@@ -79,7 +80,7 @@ Legal(c) ==
   /\ (c.kind = "power" => nd >= 2)            \* a power space X^n of tensor spaces has at least two axes
 
 \* two phases so that TLC's workers share the enumeration: (kind, method) in Init, the rest in Choose
-Init == ph = 0 /\ cfg \in [kind : Kinds, method : Methods]
+Init == ph = 0 /\ cfg \in [kind : KindsSel, method : Methods]
 Choose == /\ ph = 0
           /\ cfg' \in { c \in Configs : Legal(c) /\ c.kind = cfg.kind /\ c.method = cfg.method }
           /\ ph' = 1
@@ -103,15 +104,16 @@ ValNames(c) ==
   ELSE IF c.method = "at" /\ c.ucls = "u1" THEN {"negative", "square"}
   ELSE {"add", "subtract", "multiply", "maximum", "minimum", "logical_and", "logical_or"}
 ExpValue(c, name) ==
-  LET x == XArr(c.shapes[1])
-      y == YArr(IF Len(c.shapes) = 2 THEN c.shapes[2] ELSE c.shapes[1])
-  IN  CASE c.method = "call" /\ NIn(c.ucls) = 1 -> ExactCall1(name, x)
-        [] c.method = "call"       -> ExactCall2(name, x, y)
-        [] c.method = "reduce"     -> ExactReduce(name, x, c.axis, c.keepdims)
-        [] c.method = "accumulate" -> ExactAccumulate(name, x, c.axis)
-        [] c.method = "outer"      -> ExactOuter(name, x, y)
-        [] c.method = "at"         -> ExactAt(name, x, c.idx, AtScalar, c.ucls = "u1")
-        [] c.method = "reduceat"   -> ExactReduceAt(name, x, c.idx, c.axis)
+  ExactUfunc(name, [method |-> c.method, unary |-> NIn(c.ucls) = 1, x |-> XArr(c.shapes[1]),
+                    y |-> YArr(IF Len(c.shapes) = 2 THEN c.shapes[2] ELSE c.shapes[1]),
+                    axis |-> c.axis, keepdims |-> c.keepdims, idx |-> c.idx, b |-> AtScalar])
+
+\* expected result dtype of the exact ufuncs per operand dtype; the harness passes dtype=GivenDType(dt)
+\* for the configurations with dtkw = "given"
+DTypes == {"int32", "int64", "float32", "float64", "complex64", "complex128"}
+GivenDType(dt) == CASE dt = "int32" -> "int64" [] dt = "int64" -> "float64" [] dt = "float32" -> "float64"
+                    [] dt = "float64" -> "complex128" [] OTHER -> "complex128"
+ExpDType(c, name, dt) == ResDType(name, c.method, dt, IF c.dtkw = "given" THEN GivenDType(dt) ELSE "none")
 
 (* ------------------------------- invariants ---------------------------- *)
 IsShape(s) == \A i \in 1..Len(s) : s[i] >= 1
